@@ -19,6 +19,7 @@ ENGINES = {
         'crate': 'verif-e1',
         'bin': 'verif-e1',
         'unwind': 24,
+        'warm_harness': 'c09_it_00',
         'hash_paths': [os.path.join(REPO, 'typify-impl'), os.path.join(REPO, 'Cargo.toml'), os.path.join(REPO, 'Cargo.lock'),
                        os.path.join(VERIF, 'kani', 'e1')],
     },
@@ -34,6 +35,7 @@ ENGINES['e2'] = {
     'crate': 'verif-e2',
     'bin': 'verif-e2',
     'unwind': 26,
+    'warm_harness': 'e2_in_small',
     'harness_prefix': 'harnesses_gen::',
     'prepare': _prepare_e2,
     # generated sources are part of the hash: they are a function of /repo's typify-impl
@@ -395,7 +397,7 @@ PLAN['C04'] = mk_e2(
     'Bounded symbolic exchange between two programs: x = T::deserialize(v) for a symbolic schema-shaped v; wo = T::serialize(x); T\'::deserialize(wo) must be Ok; T\'::serialize of it must equal wo slot by slot.',
     extra_outside=['the quantifier over programs is a fixed list of 9 origin types, not generated universes', 'data-carrying enum variants (all four tagging modes), nested origin structs, Vec/map members, skip_serializing_if on the origin side'])
 PLAN['C18'] = mk_e2(
-    'C18', lambda tier, rng: e2_select('C18', tier, rng, r'_bd_\w+_(p|p0)$|_bd_(pt_b|defaults_b)_(m0|m1|m2)$', 3),
+    'C18', lambda tier, rng: e2_select('C18', tier, rng, r'_bd_\w+_(p|p0|n0)$|_bd_(pt_b|defaults_b|objdefault_b)_(m0|m1|m2)$', 3),
     'bounded symbolic execution + SAT (Kani/CBMC) of the generated builder module: setter subsets x symbolic values',
     'bounded symbolic verification (Kani/CBMC) of the generated builder for the corpus structs: for each enumerated subset of setters called and all values, try_into succeeds iff every property without default is set and every supplied value converts; the built value equals deserializing an object with the same members; struct -> builder -> struct is the identity. The text of the error message is outside (formatting is stubbed)',
     GEN_FUNCS,
